@@ -282,6 +282,40 @@ void laws_for(Ctx& c, const expression_t& e, const std::vector<symbol_t>& other_
             }
         }
     }
+    // ---- subst on quantifier-bound symbols: occurrence-count oracle (independent of the dumper's binder naming)
+    {
+        std::vector<expression_t> ns;
+        all_nodes(e, ns);
+        std::set<symbol_t> binders;
+        for (auto& n : ns) {
+            kind_t k = n.get_kind();
+            if ((k == FORALL || k == EXISTS || k == SUM) && n.get_size() == 2 && !n.get(0).empty() &&
+                n.get(0).get_kind() == IDENTIFIER)
+                binders.insert(n.get(0).get_symbol());
+        }
+        auto count_refs = [](const expression_t& x, const symbol_t& s) {
+            std::vector<expression_t> v;
+            all_nodes(x, v);
+            long c = 0;
+            for (auto& n : v)
+                if (n.get_kind() == IDENTIFIER && n.get_symbol() == s)
+                    ++c;
+            return c;
+        };
+        for (auto& b : binders) {
+            if (other_syms.empty())
+                break;
+            symbol_t to = other_syms[c.rng() % other_syms.size()];
+            long n_b = count_refs(e, b), n_to = count_refs(e, to);
+            expression_t res = e.subst(b, expression_t::create_identifier(to));
+            c.count("subst-bound");
+            if (count_refs(res, b) != 0 || count_refs(res, to) != n_to + n_b)
+                c.fail("subst-bound-symbol-wrong", "binder=" + b.get_name() + " occurrences=" + std::to_string(n_b) +
+                                                       " left=" + std::to_string(count_refs(res, b)) + " e=" + de);
+            if (c.D(e) != de)
+                c.fail("subst-bound-mutated-original", de);
+        }
+    }
     // ---- equal: reflexive, and single-node perturbations are distinguished
     c.count("equal-refl");
     if (!e.equal(e))
